@@ -17,6 +17,9 @@ use alpenglow::types::{Slice, SliceIndex, SlicePayload, Slot};
 use alpenglow::{BlockId, Transaction};
 use tokio::sync::mpsc;
 
+#[path = "../shredwire.rs"]
+mod shredwire;
+
 fn slice_index(i: usize) -> SliceIndex {
     wincode::deserialize::<SliceIndex>(&(i as u64).to_le_bytes()).expect("slice index in range")
 }
@@ -302,6 +305,34 @@ impl World {
         let sz = if data.is_empty() || data.len() % 2 == 1 { 0 } else { data.len() };
         let ty = vs.is_data() == (idx < DATA_SHREDS);
         format!("{} {} {} {} {} {}", si_usize(si), il as u8, rid, idx, sz, ty as u8)
+    }
+    /// D34: just before the genuine shred `vs` arrives from dissemination, a copy whose signature bytes a relay replaced
+    /// by garbage arrives and is validated as the node does - `ValidatedShred::try_new` with the blockstore's cached
+    /// commitment of the slice. It must be refused as `InvalidSignature` (oracle only, nothing goes to the compared
+    /// stream). If it is accepted it is stored, exactly as the node would: the step, event and served-shred oracles
+    /// of the case then show the consequences (the genuine shred becomes a duplicate, `get_shred` serves the garbage,
+    /// `deshred` copies it into the regenerated shreds).
+    fn junk_sig_attempt(&mut self, vs: &ValidatedShred, rng: &mut Rng) {
+        let mut w = shredwire::Wire::of(vs.as_shred());
+        w.sig = rng.bytes(64);
+        let Some(junk) = w.decode() else { return };
+        let (slot, si, _, idx, _) = vs.payload().verif_parts();
+        let cached = self.store.cached_commitment(slot, si);
+        let pk = self.sk.to_pk();
+        let r = catch(|| ValidatedShred::try_new(junk, cached.as_ref(), &pk));
+        let verdict = match &r {
+            Err(_) => "panic",
+            Ok(Ok(_)) => "accepted",
+            Ok(Err(alpenglow::shredder::ShredValidationError::InvalidSignature)) => "InvalidSignature",
+            Ok(Err(alpenglow::shredder::ShredValidationError::Equivocation)) => "Equivocation",
+        };
+        self.rec.count(&format!("junk-signature:cache={}:{verdict}", cached.is_some()));
+        self.rec.oracle(verdict == "InvalidSignature", "unverified-signature-accepted-on-cache-hit", || {
+            format!("shred {idx} of slice {} of slot {} of a correct leader, signature bytes replaced by garbage, validated with the blockstore's cached commitment (present: {}): try_new answered {verdict}", si_usize(si), slot.inner(), cached.is_some())
+        });
+        if let Ok(Ok(v)) = r {
+            let _ = catch(|| self.rt.block_on(self.store.add_shred_from_dissemination(v)));
+        }
     }
     /// feeds one shred; `rep` = Some(hash id, hash) for the repair path
     fn feed(&mut self, vs: &ValidatedShred, rep: Option<&(u64, BlockHash)>) -> String {
@@ -636,9 +667,15 @@ fn main() {
             // time, every slice has 32 distinct shreds; FirstShred in the first step only
             let mut seen: Vec<std::collections::HashSet<usize>> = vec![Default::default(); n];
             let mut step_bad: Option<String> = None;
+            let mut junk_tried = vec![false; n];
             for (k, (s, i)) in del.iter().enumerate() {
                 let enough_before = seen.iter().all(|v| v.len() >= DATA_SHREDS);
                 let dup_exp = seen[*s].contains(i) || seen[*s].len() >= DATA_SHREDS;
+                // D34: once per slice, before the lowest-index shred seen so far (not the first of its slice) arrives
+                if !junk_tried[*s] && !seen[*s].is_empty() && seen[*s].len() < DATA_SHREDS && seen[*s].iter().all(|j| j > i) {
+                    junk_tried[*s] = true;
+                    w.junk_sig_attempt(&built[*s].shreds[*i], &mut rng);
+                }
                 let nev = w.events.len();
                 let r = w.feed(&built[*s].shreds[*i], None);
                 seen[*s].insert(*i);
